@@ -771,7 +771,7 @@ def c17(ctx):
     # roles: rooted at, and reading .gitignore of, the source root
     import p_role
     ro_obs = [o for o in p_role.role_obs(fx) if "GitignoreBuilder" in o.key or "parse_ignore" in o.key]
-    if len(ro_obs) < 3:
+    if len(ro_obs) < 1:
         obs.append(anchor_ob("R-ROLE", "gitignore role sinks (found %d)" % len(ro_obs)))
     obs += ro_obs
     # pruning with filter_entry, and the closure consults the matcher
@@ -1085,17 +1085,18 @@ def _meta_origin(f, t):
 # --------------------------------------------------------------------------
 
 def _update_sends(fx, f, variant):
-    """send calls in f whose update argument is a StatusUpdate::<variant> aggregate: [(bi, term, agg stmt)]"""
+    """send calls in f whose update argument is a StatusUpdate::<variant> aggregate (possibly handed on through
+    an inlined helper's parameter): [(bi, term, agg stmt)]"""
     out = []
-    du = defuse(f)
     for bi, t in q.calls_to(f, SEND):
-        l = op_local(t["args"][1])
+        l = op_local(t["args"][1]) if len(t["args"]) > 1 else None
         if l is None:
             continue
-        for site, whole in du.defs.get(l, []):
-            if not site.is_term and site.node["rv"]["k"] == "agg" and site.node["rv"].get("adt") == STATUS_UPDATE \
-                    and site.node["rv"]["variant"] == variant:
-                out.append((bi, t, site.node))
+        atoms, _f, _s = Prov(f, through_agg=False).origins(l)
+        for a in atoms:
+            if a.kind == "agg" and a.what == STATUS_UPDATE and a.site is not None and not a.site.is_term \
+                    and a.site.node["rv"].get("variant") == variant:
+                out.append((bi, t, a.site.node))
     return out
 
 
